@@ -9,6 +9,7 @@ import PsyVerif.Lemmas.LoopTransReplaceIV
 import PsyVerif.Lemmas.LoopTransAccess
 import PsyVerif.Lemmas.LoopTransFuseElem
 import PsyVerif.Lemmas.LoopTransFold
+import PsyVerif.Lemmas.LoopTransFuseHeader
 /-! # C05 — Accepted loop transformations preserve serial semantics
 
 Models (`PsyVerif/Model/LoopTrans.lean`, over the MiniF semantics of `Model/MiniF.lean`) mirror the
@@ -475,6 +476,121 @@ example :
 /-- the distance-1 pair of the finding violates the discipline for every offset of `a` -/
 example : ¬ FuseElemSafe fuseDistanceWitness [(1, 0), (3, 0)] ∧ ¬ FuseElemSafe fuseDistanceWitness [(1, 1), (3, 0)] := by
   decide
+
+/-! #### LoopFuseTrans and the loop HEADERS
+
+Fortran evaluates start, stop and step once, on loop entry.  In the original program the header of
+the second loop is evaluated AFTER the first loop has run, in the fused program only once, before
+both bodies: fusion is only sound when the first body does not write a header variable.  The
+real code obtains this from `VariablesAccessInfo(node)` (the loop NODE: the header reads are the
+first accesses of every header variable), not from a separate test. -/
+
+/-- **`LoopFuseTrans.validate` protects the headers** (derived from the validate model, not
+assumed): for every accepted pair whose first loop variable does not occur in its own header, no
+variable of the start/stop/step expressions is written by the first body — so the second loop of
+the original program runs over the same iteration space — nor by the second body, and the second
+loop variable does not occur in the headers -/
+theorem C05_fuse_header_protected (t : FuseTarget) (hacc : fuseValidate t = .ok ())
+    (hv : t.l1.v ∉ hdrVars t.l1) :
+    t.l2.v ∉ hdrVars t.l1 ∧ ∀ x ∈ hdrVars t.l1, x ∉ wVars t.l1.body ∧ x ∉ wVars t.l2.body :=
+  fuseValidate_header_stable hacc hv
+
+/-- non-vacuity: `do i = n, m(2)+k, 2` twice with bodies that only read `n`, `k` is accepted -/
+example :
+    let t : FuseTarget :=
+      ⟨⟨0, .var 4, .bin .add (.idx1 5 (.lit 2)) (.var 6), .lit 2, .store1 1 (.var 0) (.bin .add (.var 4) (.var 0))⟩,
+       ⟨0, .var 4, .bin .add (.idx1 5 (.lit 2)) (.var 6), .lit 2, .store1 3 (.var 0) (.bin .mul (.var 6) (.lit 2))⟩,
+       true, false⟩
+    fuseValidate t = .ok () ∧ t.l1.v ∉ hdrVars t.l1 ∧ hdrVars t.l1 = [4, 5, 6] := by decide
+
+/-- `do i = 1, n ; a(i) = i ; n = 3` followed by `do i = 1, n ; b(i) = 2 * i`
+(ids: i=0, a=1, b=2, n=4): the first body writes the stop variable -/
+def fuseHeaderWitness : FuseTarget :=
+  ⟨⟨0, .lit 1, .var 4, .lit 1, .seq (.store1 1 (.var 0) (.var 0)) (.assign 4 (.lit 3))⟩,
+   ⟨0, .lit 1, .var 4, .lit 1, .store1 2 (.var 0) (.bin .mul (.lit 2) (.var 0))⟩, true, false⟩
+
+/-- **gathering the accesses from the loop bodies only is unsound** (the seeded weakening
+`VariablesAccessInfo(node.loop_body)`): the witness is then accepted — `n` is written in the first
+body and not accessed in the second — although the real `validate` refuses it (the header read
+of `n` is the first access in both loops), and with `n = 5` the fused loop assigns `b(4)`, which
+the original second loop (`do i = 1, 3`) never reaches -/
+theorem C05_fuse_bodyonly_counterexample :
+    fuseValidateBodyOnly fuseHeaderWitness = .ok () ∧
+    fuseValidate fuseHeaderWitness = .error .scalarDep ∧
+    ¬ ObsEq [] (fuseApply fuseHeaderWitness) fuseHeaderWitness.original := by
+  refine ⟨by decide, by decide, fun h => ?_⟩
+  have := h (storeOf [((4, 0, 0), 5)]) 2 4 0 (by decide)
+  revert this
+  decide
+
+/-- the same holds when the header variable is the FIRST access (a write) of both bodies — the
+write-first rule of `_validate_written_scalar` alone would let the pair pass — and when the
+header reads an array element that the first body overwrites -/
+example :
+    let t : FuseTarget :=
+      ⟨⟨0, .lit 1, .var 4, .lit 1, .seq (.assign 4 (.lit 3)) (.store1 1 (.var 0) (.var 4))⟩,
+       ⟨0, .lit 1, .var 4, .lit 1, .seq (.assign 4 (.lit 3)) (.store1 2 (.var 0) (.var 4))⟩, true, false⟩
+    fuseValidateBodyOnly t = .ok () ∧ fuseValidate t = .error .scalarDep := by decide
+example :
+    let t : FuseTarget :=
+      ⟨⟨0, .lit 1, .idx1 3 (.lit 2), .lit 1, .store1 3 (.var 0) (.lit 1)⟩,
+       ⟨0, .lit 1, .idx1 3 (.lit 2), .lit 1, .store1 2 (.var 0) (.var 0)⟩, true, false⟩
+    fuseValidateBodyOnly t = .ok () ∧ fuseValidate t = .error .arrayNoLoopVar := by decide
+
+/-- `FuseIndep` without its header clause: what remains to be assumed once acceptance is known -/
+def FuseIndepCore (t : FuseTarget) : Prop :=
+  t.reversed = false ∧ t.l1.v = t.l2.v ∧ t.l1.v ∉ wVars t.l2.body ∧ t.l1.v ∉ hdrVars t.l1 ∧
+  (∀ x ∈ wVars t.l1.body, x ∉ rVars t.l2.body ∧ x ∉ wVars t.l2.body) ∧
+  (∀ x ∈ wVars t.l2.body, x ∉ rVars t.l1.body ∧ x ∉ wVars t.l1.body)
+
+instance (t : FuseTarget) : Decidable (FuseIndepCore t) := by unfold FuseIndepCore; exact inferInstance
+
+theorem fuseIndep_of_validate {t : FuseTarget} (hacc : fuseValidate t = .ok ()) (hc : FuseIndepCore t) :
+    FuseIndep t := by
+  obtain ⟨h1, h2, h3, h4, h5, h6⟩ := hc
+  have hs := (fuseValidate_header_stable hacc h4).2
+  exact ⟨h1, h2, h3, fun x hx => ⟨fun e => h4 (e ▸ hx), (hs x hx).1⟩, h5, h6⟩
+
+/-- **Fusion of independent bodies, header hypothesis discharged by `validate`**: the statement
+of `C05_fuse_sound_partial` without the assumption that the header variables are not written by
+the first body — that is what acceptance guarantees (`C05_fuse_header_protected`) -/
+theorem C05_fuse_sound_validated_partial (t : FuseTarget) (hacc : fuseValidate t = .ok ())
+    (hs : FuseIndepCore t) (σ : Store) : exec (fuseApply t) σ = exec t.original σ :=
+  C05_fuse_sound_partial t hacc (fuseIndep_of_validate hacc hs) σ
+
+example :
+    let t : FuseTarget :=
+      ⟨⟨0, .var 4, .var 5, .lit 2, .store1 1 (.var 0) (.bin .add (.idx1 2 (.var 0)) (.var 0))⟩,
+       ⟨0, .var 4, .var 5, .lit 2, .store1 3 (.var 0) (.bin .mul (.idx1 2 (.var 0)) (.lit 2))⟩, true, false⟩
+    fuseValidate t = .ok () ∧ FuseIndepCore t := by decide
+
+/-- `FuseElemSafe` without its header clause -/
+def FuseElemCore (t : FuseTarget) (A : OffTab) : Prop :=
+  t.reversed = false ∧ t.l1.v = t.l2.v ∧ A.lookup t.l1.v = none ∧
+  DiscS A t.l1.v t.l1.body = true ∧ DiscS A t.l1.v t.l2.body = true ∧
+  t.l1.v ∉ wVars t.l1.body ∧ t.l1.v ∉ wVars t.l2.body ∧
+  (∀ y ∈ wVars t.l1.body, A.lookup y = none → y ∉ rVars t.l2.body ∧ y ∉ wVars t.l2.body) ∧
+  (∀ y ∈ wVars t.l2.body, A.lookup y = none → y ∉ rVars t.l1.body ∧ y ∉ wVars t.l1.body) ∧
+  t.l1.v ∉ hdrVars t.l1
+
+instance (t : FuseTarget) (A : OffTab) : Decidable (FuseElemCore t A) := by
+  unfold FuseElemCore; exact inferInstance
+
+/-- **Element-level fusion, header hypothesis discharged by `validate`** -/
+theorem C05_fuse_sound_elem_validated_partial (t : FuseTarget) (hacc : fuseValidate t = .ok ()) (A : OffTab)
+    (hs : FuseElemCore t A) (σ : Store) : exec (fuseApply t) σ = exec t.original σ := by
+  obtain ⟨h1, h2, h3, h4, h5, h6, h7, h8, h9, h10⟩ := hs
+  have hh := (fuseValidate_header_stable hacc h10).2
+  exact C05_fuse_sound_elem_partial t hacc A
+    ⟨h1, h2, h3, h4, h5, h6, h7, h8, h9, fun x hx => ⟨fun e => h10 (e ▸ hx), (hh x hx).1⟩⟩ σ
+
+example :
+    let t : FuseTarget :=
+      ⟨⟨0, .var 4, .var 5, .lit 1, .seq (.store1 1 (.var 0) (.bin .add (.idx1 2 (.var 0)) (.lit 1)))
+          (.store1 3 (.bin .add (.var 0) (.lit 1)) (.idx1 1 (.var 0)))⟩,
+       ⟨0, .var 4, .var 5, .lit 1, .store1 6 (.var 0)
+          (.bin .mul (.idx1 1 (.var 0)) (.idx1 3 (.bin .add (.var 0) (.lit 1))))⟩, true, false⟩
+    fuseValidate t = .ok () ∧ FuseElemCore t [(1, 0), (3, 1), (6, 0)] := by decide
 
 /-! ### LoopSwapTrans -/
 
